@@ -2,12 +2,77 @@
 every run), claimed levels, assumptions.  A theorem listed here that no longer exists or no longer
 checks makes the check report `proof-broken`."""
 
+
 def allowed_extra_axiom(a):
-    # bv_decide's axioms; accepted for SIMD bit-twiddling lemmas only and reported in the evidence
+    # bv_decide's axioms; accepted for bit-twiddling lemmas only and reported in the evidence
     return a in ("Lean.ofReduceBool", "Lean.trustCompiler") or "_native.bv_decide.ax" in a
 
-THEOREMS = {}
-LEVEL = {}
+
+MODEL_TRUST = [
+    "hand-written Lean model of the Rust source, tied to /repo's working tree by the correspondence check of this run (op streams executed on the real crate and on the model, outputs diffed)",
+    "Rust semantics of slices/wrapping arithmetic/chunks_exact as transcribed in the model",
+]
+SIMD_TRUST = ["semantics of the x86 intrinsics in HH/Intrin/X86.lean (Intel pseudo-code), validated against the real instructions through the SSE/AVX correspondence streams"]
+
+THEOREMS = {
+    "C01": dict(module="HH.Props.C01", trusted=MODEL_TRUST + ["HH/Spec.lean: hand transcription of the HighwayHash algorithm, validated in the kernel against the 195 published vectors + 5 README/test vectors"],
+                theorems=[
+        ("HH.C01.hash64_eq_spec", "∀ key data, P.hash64 key data = Spec.hash64 key data"),
+        ("HH.C01.hash128_eq_spec", "∀ key data, P.hash128 key data = Spec.hash128 key data"),
+        ("HH.C01.hash256_eq_spec", "∀ key data, P.hash256 key data = Spec.hash256 key data"),
+        ("HH.C01.spec_vectors64", "Spec.hash64 reproduces the 65 published 64-bit vectors (decide +kernel)"),
+        ("HH.C01.spec_vectors128", "Spec.hash128 reproduces the 65 published 128-bit vectors"),
+        ("HH.C01.spec_vectors256", "Spec.hash256 reproduces the 65 published 256-bit vectors"),
+        ("HH.C01.spec_vectors_misc", "README vectors, two >=0x80 vectors, zero-key empty input"),
+        ("HH.C01.portable_vectors64", "the portable model reproduces the published 64-bit vectors"),
+    ]),
+    "C02": dict(module="HH.Props.C02", trusted=MODEL_TRUST + SIMD_TRUST, theorems=[
+        ("HH.C02.backend_eq_portable", "∀ backend key chunks width: result of any back end built from a key = portable result"),
+        ("HH.C02.sse_hash64", "∀ k d, Sse.finalize64 (Sse.append (Sse.new k) d) = P.hash64 k d"),
+        ("HH.C02.sse_hash128", "same, 128 bit"), ("HH.C02.sse_hash256", "same, 256 bit"),
+        ("HH.C02.avx_hash64", "∀ k d, Avx.finalize64 (Avx.append (Avx.new k) d) = P.hash64 k d"),
+        ("HH.C02.avx_hash128", "same, 128 bit"), ("HH.C02.avx_hash256", "same, 256 bit"),
+        ("HH.C02.auto_eq_portable", "∀ Cfg Cpu: the back end chosen by the selection ladder gives the portable result"),
+        ("HH.C02.sse_eq_spec64", "SSE = HighwayHash spec (64 bit)"), ("HH.C02.avx_eq_spec256", "AVX = HighwayHash spec (256 bit)"),
+    ]),
+    "C05": dict(module="HH.Props.C05", trusted=MODEL_TRUST + SIMD_TRUST, theorems=[
+        ("HH.C05.streaming", "∀ hasher (any back end, packet invariant) chunks width: foldl append then finalize = append (flatten) then finalize"),
+        ("HH.C05.streaming2", "two chunkings of the same data give the same result"),
+        ("HH.C05.streaming_new", "instance for hashers built from a key"),
+        ("HH.C05.empty_append", "an empty append changes no observable"),
+        ("HH.C05.entry_points_agree", "append / Hasher::write / io::Write::write are the same state transformer of the machine"),
+    ]),
+    "C06": dict(module="HH.Props.C06", trusted=MODEL_TRUST + SIMD_TRUST, theorems=[
+        ("HH.C06.hop_transparent", "checkpoint + restore on any back end: every later finalize/checkpoint equals the original's"),
+        ("HH.C06.journey_abs", "any number of hops over any back ends at any cut points preserves the abstract state"),
+        ("HH.C06.journey_transparent", "after any journey every later result equals the uninterrupted hasher's"),
+    ]),
+    "C07": dict(module="HH.Props.C07", trusted=MODEL_TRUST + SIMD_TRUST, theorems=[
+        ("HH.C07.default_eq_new", "∀ back end, default = new zeroKey"),
+        ("HH.C07.default_hash", "every default hasher is observationally the zero-key portable hasher"),
+        ("HH.C07.default_hash64_spec", "default portable hasher computes Spec.hash64 zeroKey"),
+        ("HH.C07.legacy_default_ne", "kernel-checked witness of the fixed defect (derived Default: hash 0)"),
+    ]),
+    "C11": dict(module="HH.Props.C11", trusted=MODEL_TRUST + SIMD_TRUST, theorems=[
+        ("HH.C11.restored_inv", "∀ c ∈ u8^164, ∀ back end: restored hasher satisfies idx<32 and has abstract state decodeAbs c"),
+        ("HH.C11.backend_independent", "∀ c, any two back ends: all later finalize/checkpoint/finish results equal"),
+        ("HH.C11.restored_laws", "empty append is identity, streaming invariance, own checkpoints restore transparently"),
+        ("HH.C11.decoded_count_lt", "pending count < 32 for every count field"),
+        ("HH.C11.legacy_count32_breaks", "kernel-checked witness of the fixed defect (count=32)"),
+    ]),
+    "C14": dict(module="HH.Props.C14", trusted=MODEL_TRUST + SIMD_TRUST, theorems=[
+        ("HH.C14.ckpt_of_abs", "checkpoint is a function of the abstract state"),
+        ("HH.C14.canonical", "same key + same stream, any chunkings, any back ends: identical 164 bytes = encode(key, bytes)"),
+        ("HH.C14.idempotent", "from_checkpoint(c).checkpoint() = c for produced c"),
+        ("HH.C14.buffer_field", "bytes 128..160 = pending bytes followed by zeros (no absorbed input)"),
+        ("HH.C14.legacy_leak", "kernel-checked witness of the fixed defect (stale bytes in the buffer)"),
+    ]),
+}
+
+LEVEL = {k: "proof" for k in THEOREMS}
 EXPLAIN = {}
-ASSUME = {}
+ASSUME = {
+    k: ["the Lean model corresponds to the code: established for this run by the differential correspondence stream (see coverage.traces_validated_against_impl / model_disagreements)",
+        "rustc/LLVM compile the crate according to Rust semantics"] for k in ["C01", "C02", "C05", "C06", "C07", "C10", "C11", "C12", "C13", "C14", "C15"]
+}
 SPECIAL = {}
